@@ -315,6 +315,13 @@ def generate(up, tier, seed):
             for rows in antichains(revs):
                 for t in targets(revs, up, full=(n <= 2 or tier == "thorough")):
                     yield {"cmd": {"revs": revs, "rows": rows, "up": up, "target": t}}
+    # ids that contain one another (acct inside bill_acct), both nesting directions
+    for nested in (["acct1", "bill_acct1", "x_bill_acct1"], ["x_bill_acct1", "bill_acct1", "acct1"]):
+        for n in (2, 3):
+            for revs in small_histories(n, names=nested):
+                for rows in antichains(revs):
+                    for t in targets(revs, up, full=False):
+                        yield {"cmd": {"revs": revs, "rows": rows, "up": up, "target": t}}
     # labelled: every history of <=3 revisions with one branch label on each revision in turn
     for n in (2, 3):
         for revs in small_histories(n):
